@@ -532,7 +532,9 @@ func EVAL(ctx context.Context, ast MalType, env EnvType) (res MalType, e error) 
 					if err != nil {
 						return nil, err
 					}
-					ast, err = do(ctx, catchDo, 0, 0, new_env)
+					// evaluate all handler forms but the last; the last one is
+					// evaluated (once) by the next iteration of the loop
+					ast, err = do(ctx, catchDo, 0, -1, new_env)
 					if err != nil {
 						return nil, err
 					}
